@@ -7,7 +7,51 @@ import MW.Lemmas.SelectGreedy
 namespace MW.Lemmas.SelectPipeline
 open MW MW.Model.Select MW.Lemmas.SelectHeap MW.Lemmas.SelectTopK MW.Lemmas.SelectGreedy
 
-theorem sortDesc_perm (l : List Coin) : (sortDesc l).Perm l := List.mergeSort_perm _ _
+theorem insertDesc_perm (x : Coin) (l : List Coin) : (insertDesc x l).Perm (x :: l) := by
+  induction l with
+  | nil => exact List.Perm.refl _
+  | cons y t ih =>
+    unfold insertDesc
+    split
+    · exact List.Perm.refl _
+    · exact (List.Perm.cons y ih).trans (List.Perm.swap x y t)
+
+theorem sortDesc_perm (l : List Coin) : (sortDesc l).Perm l := by
+  unfold sortDesc
+  induction l with
+  | nil => exact List.Perm.refl _
+  | cons x t ih =>
+    simp only [List.foldr_cons]
+    exact (insertDesc_perm x _).trans (List.Perm.cons x ih)
+
+/-- the result of the sort is in descending order of amount -/
+theorem insertDesc_sorted (x : Coin) (l : List Coin) (h : l.Pairwise (fun a b => a.amt ≥ b.amt)) :
+    (insertDesc x l).Pairwise (fun a b => a.amt ≥ b.amt) := by
+  induction l with
+  | nil => simp [insertDesc]
+  | cons y t ih =>
+    unfold insertDesc
+    obtain ⟨hy, ht⟩ := List.pairwise_cons.mp h
+    split
+    · rename_i hgt
+      refine List.pairwise_cons.mpr ⟨?_, h⟩
+      intro b hb
+      rcases List.mem_cons.mp hb with hb | hb
+      · subst hb; omega
+      · have := hy b hb; omega
+    · rename_i hle
+      refine List.pairwise_cons.mpr ⟨?_, ih ht⟩
+      intro b hb
+      have hb' := (insertDesc_perm x t).mem_iff.mp hb
+      rcases List.mem_cons.mp hb' with hb' | hb'
+      · subst hb'; omega
+      · exact hy b hb'
+
+theorem sortDesc_sorted (l : List Coin) : (sortDesc l).Pairwise (fun a b => a.amt ≥ b.amt) := by
+  unfold sortDesc
+  induction l with
+  | nil => simp
+  | cons x t ih => simp only [List.foldr_cons]; exact insertDesc_sorted x _ ih
 
 theorem SubMultiset.refl {α : Type} (l : List α) : SubMultiset l l := ⟨[], by simp⟩
 
